@@ -88,6 +88,17 @@ def prog_show(prog):
     return "; ".join(parts) + " -> " + e(prog["ret"])
 
 
+def prog_shape(prog):
+    tags = []
+    body = prog["body"]
+    if any(st["g"] for st in body):
+        tags.append("site-in-cond-branch")
+    for i, st in enumerate(body):
+        if st["k"] == "sample" and st["strat"] == "MVD" and i + 1 < len(body):
+            tags.append("stmt-after-flip_mvd")
+    return "+".join(tags) if tags else "flat"
+
+
 def build_program(prog):
     import jax
     import jax.numpy as jnp
@@ -147,7 +158,9 @@ def build_program(prog):
                 adev.add_cost(ev(st["e"], th, vals))
             elif st["g"]:
                 cur = list(vals)
-                vals.append(jax.lax.cond(vals[st["g"] - 1],
+                # g = 1, 2: branch of a cond on an earlier flip; g = 3: branch of lax.cond(True, ..)
+                pred = jnp.array(True) if st["g"] == 3 else vals[st["g"] - 1]
+                vals.append(jax.lax.cond(pred,
                                          lambda st=st, cur=cur: draw(st, th, cur),
                                          lambda: jnp.array(False)))
             else:
@@ -186,6 +199,14 @@ def build_cont(cc):
             return a * x + c * th
         if fam == "uniform":
             return a[0] * adev.uniform() + c[0] * th
+        if fam == "two_normal_reparam":        # two consecutive tail-call sites
+            x = adev.normal_reparam(m0[0] + m1[0] * th, l0[0, 0] + l1[0, 0] * th)
+            y = adev.normal_reparam(m0[1] + m1[1] * th, l0[1, 1] + l1[1, 1] * th)
+            return a * jnp.stack([x, y]) + c * th
+        if fam == "uniform_normal_reparam":
+            x = adev.uniform()
+            y = adev.normal_reparam(m0[1] + m1[1] * th, l0[1, 1] + l1[1, 1] * th)
+            return a * jnp.stack([x, y]) + c * th
         if fam == "beta_implicit":
             x = adev.beta_implicit(m0[0] + m1[0] * th, m0[1] + m1[1] * th)
             return a[0] * x + c[0] * th
@@ -307,7 +328,7 @@ def run_cont(job):
         err = repr(e)[:300]
     for ti, thn in enumerate(THN):
         ev = dict(cc)
-        ev.update(id=f"{cid}/cont/{thn}", kind="cont", thn=thn, status=status, outs=[])
+        ev.update(id=f"{cid}/cont/{thn}", kind="cont", thn=thn, status=status, outs=[], hb=job.get("hb", 0))
         if status == "ok":
             for ki in range(nk):
                 o = dict(p=[fp(x) for x in P[ti][ki]], t=[fp(x) for x in T[ti][ki]])
@@ -384,7 +405,7 @@ def run(prop_id, tier, seed, replay=None):
     else:
         th_a = threading.Thread(target=role_a)
         th_a.start()
-        nch, per = (16, 3) if quick else (16, 40)
+        nch, per = (16, 2) if quick else (16, 40)
         cfg = _cfg(os.path.join(wd, "Gen.cfg"),
                    f"CONSTANTS Big = TRUE\n Seed = {seed % 60000}\n NChains = {nch}\n NPerChain = {per}\n"
                    "SPECIFICATION SpecGen\nINVARIANT EmitCase\nINVARIANT GenUnbiased\nCHECK_DEADLOCK FALSE\n")
@@ -400,11 +421,14 @@ def run(prop_id, tier, seed, replay=None):
             i = len(jobs)
             jobs.append(dict(id=f"P{i}", prog=c["prog"], seed=(seed * 1000003 + i) % (2 ** 31), nkeys=nkeys,
                              extra=bool(c["core"]) or i % 4 == 0, eager=bool(c["core"]), hb=0))
+        nindep = 512 if quick else 4096
         for j, cc in enumerate(g.payloads("CCASE")):
-            jobs.append(dict(id=f"K{j}", cc=cc, seed=(seed * 1000003 + 7919 + j) % (2 ** 31), nkeys=8 if quick else 64))
+            two = cc["fam"] in ("two_normal_reparam", "uniform_normal_reparam")
+            jobs.append(dict(id=f"K{j}", cc=cc, seed=(seed * 1000003 + 7919 + j) % (2 ** 31),
+                             nkeys=nindep if two else (8 if quick else 64), hb=0, two=two))
         cells = 16 * 4 * max(1, len(jobs))
         for jb in jobs:
-            if "prog" in jb:
+            if "prog" in jb or jb.get("two"):
                 jb["hb"] = hoeffding_bound(jb["nkeys"], cells)
         rep.extra["hoeffding"] = {"delta": 1e-9, "cells": cells, "n": nkeys, "bound": hoeffding_bound(nkeys, cells)}
 
@@ -457,7 +481,7 @@ def run(prop_id, tier, seed, replay=None):
         if "prog" in jb:
             sig["prims"] = prog_prims(jb["prog"])
             sig["program"] = prog_show(jb["prog"])
-            sig["shape"] = "site-in-cond-branch" if any(st["g"] for st in jb["prog"]["body"]) else "flat"
+            sig["shape"] = prog_shape(jb["prog"])
         else:
             sig["fam"] = jb["cc"]["fam"]
             sig["case"] = jid
